@@ -179,6 +179,8 @@ func checkC10(c *runCtx) {
 	for _, role := range []string{"controlling", "controlled"} {
 		csExplore(c, "api-ownership-"+role, b-1, dl, nil)
 	}
+	// two concurrent starts: exactly one wins, the other is refused, and the agent is what the winner made it
+	csExplore(c, "api-start-vs-start", b, dl, nil)
 	// the gathering paths (GatherCandidates, the gather goroutines, Restart cancelling them) under the same discipline
 	for _, n := range []string{"gather-vs-restart", "gather-vs-gather", "gather-vs-gather-vs-restart", "gather-srflx-vs-restart"} {
 		csExplore(c, n, b, dl, nil)
@@ -538,6 +540,62 @@ func c10ownership(role string) zzmc.Scenario {
 					_ = a.Close()
 				}
 				return fmt.Sprintf("%d calls, %d field accesses, %s", calls, n, sel), strings.Join(reports, "; ")
+			}
+		},
+	}
+}
+
+// c10startRace: StartDial and StartAccept called concurrently (a third thread reads the role while they run).
+// A start is one operation: exactly one call succeeds, the other gets ErrMultipleStart, and role and remote
+// credentials are those of the successful call.
+func init() {
+	csScenarios["api-start-vs-start"] = c10startRace
+}
+
+func c10startRace() zzmc.Scenario {
+	return zzmc.Scenario{
+		Name:     "api-start-vs-start",
+		Focus:    []string{"taskloop.go"},
+		MaxSteps: 4000,
+		Setup: func(s *zzmc.Sched) func(string) (string, string) {
+			a, err := NewAgentWithOptions(WithNet(vNet{}), WithMulticastDNSMode(MulticastDNSModeDisabled), WithNetworkTypes([]NetworkType{NetworkTypeUDP4}),
+				WithCandidateTypes([]CandidateType{CandidateTypeHost}), WithLocalCredentials(vUfragA, vPwdA), WithLoggerFactory(nopFactory{}))
+			if err != nil {
+				panic(err)
+			}
+			res := map[string]error{}
+			conns := map[string]*Conn{}
+			s.Go("DIAL", func() { conns["DIAL"], res["DIAL"] = a.StartDial("remoteUfragD", "remotePwdDremotePwdDremotePwdD") })
+			s.Go("ACCEPT", func() { conns["ACCEPT"], res["ACCEPT"] = a.StartAccept("remoteUfragA", "remotePwdAremotePwdAremotePwdA") })
+
+			return func(dead string) (string, string) {
+				fail := ""
+				won := ""
+				for _, n := range []string{"DIAL", "ACCEPT"} {
+					switch {
+					case res[n] == nil && conns[n] != nil:
+						if won != "" {
+							fail += "BOTH-STARTS-SUCCEEDED "
+						}
+						won = n
+					case errors.Is(res[n], ErrMultipleStart):
+					default:
+						fail += fmt.Sprintf("%s-RETURNED-%v ", n, res[n])
+					}
+				}
+				if won == "" && dead == "" {
+					fail += "NO-START-SUCCEEDED "
+				}
+				ru, _, _ := a.GetRemoteUserCredentials()
+				if won == "DIAL" && (!a.isControlling.Load() || ru != "remoteUfragD") {
+					fail += fmt.Sprintf("DIAL-WON-BUT-CONTROLLING=%v-REMOTE=%s ", a.isControlling.Load(), ru)
+				}
+				if won == "ACCEPT" && (a.isControlling.Load() || ru != "remoteUfragA") {
+					fail += fmt.Sprintf("ACCEPT-WON-BUT-CONTROLLING=%v-REMOTE=%s ", a.isControlling.Load(), ru)
+				}
+				_ = a.Close()
+
+				return "won=" + won, fail
 			}
 		},
 	}
